@@ -57,6 +57,8 @@ def run(ctx, rep):
     common.check_duplicate_operands(ctx, rep, "R8.8", ["cobyqa.problem:Problem.__init__", "cobyqa.problem:BoundConstraints.__init__", "cobyqa.problem:LinearConstraints.__init__", "cobyqa.main:minimize"])
     from . import c10
     c10.run(ctx, Renamed(rep, to="R8.8"), r1="R8.8", only_transform=True)
+    rep.rule("R8.10", "the barrier constant can be squared without overflow (it replaces NaN/inf values that the models then square): evaluated statically with the IEEE double parameters")
+    r810(ctx, rep)
     rep.rule("R8.9", "reduced-space points only meet reduced-space bounds/matrices (a dimension mismatch raises inside numpy and escapes) (see C02 R2.5)")
     from .. import spaces
     if spaces.check_reduced_operands(ctx, Renamed(rep, to="R8.9"), "R8.9") < 8:
@@ -384,3 +386,38 @@ def r85(ctx, rep):
             else:
                 rep.bad("R8.5", f"_build_result: result.{fld}")
                 rep.finding("R8.5", br, f"result.{fld}", rn.line, f"field `{fld}` of the result is not assigned on every path to the return")
+
+
+def r810(ctx, rep):
+    from .. import minieval
+    mod = ctx.repo.modules.get("cobyqa.settings")
+    if mod is None or "BARRIER" not in mod.globals:
+        raise AnalysisError("settings.BARRIER not found")
+    v = mod.globals["BARRIER"]
+    env = minieval.Env({}, {
+        "np.finfo(float).maxexp": 1024, "np.finfo(float).minexp": -1022, "np.finfo(float).max": 1.7976931348623157e308,
+        "np.finfo(float).eps": 2.220446049250313e-16, "np.finfo(float).tiny": 2.2250738585072014e-308,
+        "numpy.finfo(float).maxexp": 1024, "numpy.finfo(float).minexp": -1022,
+    })
+    try:
+        val = minieval.ev(v, env)
+    except minieval.Unsupported as exc:
+        if "arithmetic error" in str(exc):
+            val = float("inf")
+        else:
+            raise AnalysisError(f"settings.BARRIER: the definition `{norm(v)[:60]}` cannot be evaluated statically ({exc})")
+    desc = f"settings.BARRIER = {norm(v)[:60]} = {val!r}"
+    good = isinstance(val, (int, float)) and val == val and 1.0 < val < float("inf")
+    if good:
+        try:
+            sq = float(val) * float(val)
+            good = sq < float("inf") and float(val) >= 2.0 ** 20
+        except OverflowError:
+            good = False
+    if good:
+        rep.ok("R8.10", desc + " (finite, square finite)")
+    else:
+        rep.bad("R8.10", desc)
+        rep.finding("R8.10", "settings", norm(v)[:100], getattr(v, "lineno", 0),
+                    f"the barrier value {val!r} cannot be squared without overflow (or is not a large finite number): a NaN/inf returned by the user is replaced by it, the models square it, "
+                    "and the run continues with inf/NaN (LinAlgError or NaN points handed to the user)", file="cobyqa/settings.py")
